@@ -495,7 +495,8 @@ static void gen_c20(G &g) {
             Json fx; unsigned y = (unsigned) r.below(10);
             if (y < 6) fx = payload_damage(g, 80 + 64);
             else if (y < 8) { fx = Json::arr(); static const char *fl[] = {"idx", "beid", "bever"}; const char *f = fl[r.below(3)];
-                i64 v = !strcmp(f, "idx") ? n + (i64) r.range(0, 3) : !strcmp(f, "beid") ? (c.be + 1 + (i64) r.below(5)) % 256 : 0x010001 + (i64) r.below(3);
+                static const i64 bigidx[] = {0x7fffffffLL, 0x80000000LL, 0x80000001LL, 0xffffffffLL, 0xfffffffeLL, 255, 32, 33};
+                i64 v = !strcmp(f, "idx") ? (r.chance(1, 2) ? n + (i64) r.range(0, 3) : bigidx[r.below(8)]) : !strcmp(f, "beid") ? (c.be + 1 + (i64) r.below(5)) % 256 : 0x010001 + (i64) r.below(3);
                 fx.push(fx_field(f, v, (int) r.range(1, 2))); }
             else if (y < 9) { fx = Json::arr(); Json f = fx1("misdirect"); f.set("obj", 1).set("dev", (i64) r.below(n)); fx.push(f); }
             else fx = header_damage(g, 0, false);
